@@ -22,7 +22,7 @@ META = {
         "C06.P2 inbound routing: system bytes registered => that requester's queue, else message_received; HSMS and SECS-I agree",
         "C06.W1 one consumer of the dispatch queue across reconnects; FIFO; one item at a time; a raising handler does not end the consumer; no lost wake-up",
         "C06.X1 a reply is routed before any transition that can raise (shared with C05.P3)",
-        "C06.S1 HSMS frames are cut from the byte stream exactly: complete before consumed, cursor on the next frame, no buffered frame left behind (shared with C04.P1)",
+        "C06.S1 HSMS frames are cut from the byte stream exactly: complete before consumed, cursor on the next frame, no buffered frame left behind (shared with C04.P1); a SECS-I block is dequeued only when it is about to be transferred and resolved exactly once (shared with C17.P2)",
     ],
     "does_not_decide": ["fairness and latency", "dict-level races on the response-queue map beyond the counter lock", "actual thread interleavings (the rules are lockset/ordering disciplines)"],
     "assumptions": ["queue.Queue is a thread-safe FIFO (stdlib)", "threading.Lock provides mutual exclusion (stdlib)"],
@@ -375,3 +375,9 @@ def run(ctx):
     from .c04 import check_framing
 
     report.share(ctx, "C06.S1", check_framing)
+    # on the serial line a queued request block is taken out of the queue only when it is about to be transferred and is
+    # resolved exactly once - a block dropped on line contention leaves its requester without reply and without timeout
+    # (shared with C17.P2)
+    from .c17 import check_send
+
+    report.share(ctx, "C06.S1", check_send)
